@@ -32,8 +32,8 @@ func NewLogarithmicMapping(relativeAccuracy float64) (*LogarithmicMapping, error
 		return nil, errors.New("The relative accuracy must be between 0 and 1.")
 	}
 	gamma := (1 + relativeAccuracy) / (1 - relativeAccuracy) // > 1
-	m, _ := NewLogarithmicMappingWithGamma(gamma, 0)
-	return m, nil
+	// gamma is rounded to 1 if the relative accuracy is too small (below about 1e-16).
+	return NewLogarithmicMappingWithGamma(gamma, 0)
 }
 
 func NewLogarithmicMappingWithGamma(gamma, indexOffset float64) (*LogarithmicMapping, error) {
